@@ -389,9 +389,26 @@ pub fn check(c: &Case02, evm: &mut Evm<'static, (), RunnerDb>) -> (Vec<(String, 
     (v, expect_reject)
 }
 
+/// the verdict on `c` after `prev` ran on the same Evm differs from the verdict on a fresh Evm
+fn check_pair(prev: &Case02, c: &Case02) -> Vec<(String, String)> {
+    let spec = spec_from_name(&c.spec);
+    let mut reused = new_evm(spec);
+    let _ = verdict(&mut reused, &build(prev).0);
+    let after = verdict(&mut reused, &build(c).0);
+    let fresh = verdict(&mut new_evm(spec), &build(c).0);
+    if after != fresh {
+        vec![("earlier-transaction-changes-verdict".into(), format!("on one Evm, after {prev:?}, the transaction {c:?} is {:?} (rejected?); on a fresh Evm it is {:?}", after, fresh))]
+    } else {
+        vec![]
+    }
+}
 pub fn replay(case: &Value) -> Vec<Violation> {
     if case.get("history").is_some() {
         return replay_b(case);
+    }
+    if case.get("pair").is_some() {
+        let p: Vec<Case02> = serde_json::from_value(case["pair"].clone()).unwrap();
+        return check_pair(&p[0], &p[1]).into_iter().map(|(k, m)| Violation { key: k, msg: m, case: case.clone() }).collect();
     }
     let c: Case02 = serde_json::from_value(case["c"].clone()).unwrap();
     let mut evm = new_evm(spec_from_name(&c.spec));
@@ -567,6 +584,7 @@ pub fn run(ctx: &Ctx) -> i32 {
         .map(|(s, sh, chain, n)| {
             let mut a = Acc::new();
             let mut evm = new_evm(*s);
+            let mut prev: Option<Case02> = None;
             for g in gases {
                 if ctx.over_budget() {
                     a.capped = true;
@@ -586,10 +604,25 @@ pub fn run(ctx: &Ctx) -> i32 {
                                 if a.samples.is_empty() && !expect && *sh != Shape::Call {
                                     a.sample(|| json!({"case": c, "verdict": "accepted"}));
                                 }
+                                if !v.is_empty() {
+                                    // is it this transaction, or what an earlier one left behind on the reused Evm?
+                                    let alone = check(&c, &mut new_evm(*s)).0;
+                                    if alone.is_empty() {
+                                        if let Some(p) = &prev {
+                                            for (k, msg) in check_pair(p, &c) {
+                                                a.violation(Violation { key: k, msg, case: json!({"pair": [p, c]}) });
+                                            }
+                                        }
+                                        evm = new_evm(*s);
+                                        prev = Some(c);
+                                        continue;
+                                    }
+                                }
                                 for (k, msg) in v {
                                     a.outcome(&format!("DISAGREE {k} @{}", c.spec));
                                     a.violation(Violation { key: k, msg: format!("{c:?}: {msg}"), case: json!({"c": c}) });
                                 }
+                                prev = Some(c);
                             }
                         }
                     }
